@@ -26,7 +26,7 @@ bool k_sw_sv(CH const*, sz, CH const*, sz); bool k_sw_ch(CH const*, sz, CH); boo
 bool k_ew_sv(CH const*, sz, CH const*, sz); bool k_ew_ch(CH const*, sz, CH); bool k_ew_cs(CH const*, sz, CH const*);
 bool k_ct_sv(CH const*, sz, CH const*, sz); bool k_ct_ch(CH const*, sz, CH); bool k_ct_cs(CH const*, sz, CH const*);
 sz k_substr(CH const*, sz, sz, sz, sz*); sz k_copy(CH const*, sz, CH*, sz, sz); sz k_rmpre(CH const*, sz, sz, sz*); sz k_rmsuf(CH const*, sz, sz, sz*);
-unsigned k_rel(CH const*, sz, CH const*, sz); CH k_at(CH const*, sz, sz); CH k_front(CH const*, sz); CH k_back(CH const*, sz); sz k_iter_sum(CH const*, sz, sz*);
+unsigned k_rel(CH const*, sz, CH const*, sz); CH k_at(CH const*, sz, sz); CH k_front(CH const*, sz); CH k_back(CH const*, sz); sz k_iter(CH const*, sz, CH*, CH*);
 sz k_cstr_ctor(CH const*);
 }
 static CH nd_ch() { return sizeof(CH) == 1 ? CH(vf_nd_u8()) : sizeof(CH) == 2 ? CH(vf_nd_u16()) : CH(vf_nd_u32()); }
@@ -101,10 +101,8 @@ Q q_access()
 {
     CH* h = sym(HN); sz i = vf_nd_u64(); vf_assume(i < HN);
     vf_assert(k_at(h, HN, i) == h[i], "operator[]"); vf_assert(k_front(h, HN) == h[0], "front"); vf_assert(k_back(h, HN) == h[HN - 1], "back");
-    sz* rs = (sz*)vf_alloc(8); sz s = k_iter_sum(h, HN, rs); sz es = 0, er = 0, w = 1;
-    for (sz j = 0; j < HN; j++) { es += sz(h[j]) * w; w *= 31; }
-    w = 1;
-    for (sz j = HN; j > 0; j--) { er += sz(h[j - 1]) * w; w *= 31; }
-    vf_assert(s == es, "forward iteration visits every character once in order"); vf_assert(*rs == er, "reverse iteration visits every character once in reverse order");
+    CH* f = (CH*)vf_alloc(HN * sizeof(CH)); CH* r = (CH*)vf_alloc(HN * sizeof(CH));
+    vf_assert(k_iter(h, HN, f, r) == HN, "iteration visits size() characters");
+    for (sz j = 0; j < HN; j++) { vf_assert(f[j] == h[j], "forward iteration order"); vf_assert(r[j] == h[HN - 1 - j], "reverse iteration order"); }
 }
 Q q_cstr_ctor() { CH* n = symz(NN); vf_assert(k_cstr_ctor(n) == NN, "view(cstr).size() == strlen"); }
